@@ -39,7 +39,10 @@ func genC19(r *rand.Rand, run int, tier string) *vm.Plan {
 	if r.Intn(2) == 0 {
 		op.Flags = append(op.Flags, "reloaded")
 	}
-	kinds := []string{"authorizerFor", "authorizerFor", "authorizer", "authorize", "authorize", "string", "code", "blockid", "createblock", "append", "append_default_rng", "seal", "serialize", "revids", "checks", "misc", "parse_block", "parse_fact", "parse_rule", "parse_authorizer"}
+	if r.Intn(2) == 0 {
+		op.Flags = append(op.Flags, "shared-options")
+	}
+	kinds := []string{"authorizerFor", "authorizerFor", "authorizerForKeys", "authorizerForKeys", "authorizer", "authorize", "authorize", "string", "code", "blockid", "createblock", "append", "append_default_rng", "seal", "serialize", "revids", "checks", "misc", "parse_block", "parse_fact", "parse_rule", "parse_authorizer"}
 	ntask := 2 + r.Intn(3)
 	total := 0
 	for t := 0; t < ntask; t++ {
